@@ -155,7 +155,7 @@ Proof.
     apply (fold_rename_shared (fun st p => rename_id st (fst p) (snd p))); [intros; apply rename_id_shared; assumption | exact Hs].
   - unfold ds_set_label. destruct (ds_axis_ref s r); [|exact Hs]. destruct (py_index _ i); [apply shared_with_heap; exact Hs | exact Hs].
   - unfold ds_set_axis. destruct (ds_axis_ref s r) as [id|]; [|exact Hs]. destruct (negb _); [exact Hs|].
-    destruct name; [apply rename_id_shared; apply shared_with_heap; exact Hs | apply shared_with_heap; exact Hs].
+    destruct name; [destruct (mem_str _ _); [exact Hs | apply rename_id_shared; apply shared_with_heap; exact Hs] | apply shared_with_heap; exact Hs].
   - apply replace_axis_shared; exact Hs.
   - apply rename_key_shared; exact Hs.
   - apply rename_keys_shared; exact Hs.
@@ -544,16 +544,25 @@ Qed.
 
 (* the remaining operations of the alphabet *)
 Theorem set_axis_inv r k labs name s :
-  Inv4 s -> (forall id n, ds_axis_ref s r = Ok id -> name = Some n -> ~ In n (ds_dims s) \/ n = aname (hget (heap s) id)) ->
-  Inv4 (fst (ds_set_axis r k labs name s)).
+  Inv4 s -> Inv4 (fst (ds_set_axis r k labs name s)).
 Proof.
-  intros Hi Hn. unfold ds_set_axis. destruct (ds_axis_ref s r) as [id|] eqn:Er; [|exact Hi].
+  intros Hi. unfold ds_set_axis. destruct (ds_axis_ref s r) as [id|] eqn:Er; [|exact Hi].
   destruct (negb _); [exact Hi|]. cbv zeta.
   set (ax' := {| aname := aname (hget (heap s) id); akind := _; alab := labs; aattrs := _; amem := _ |}).
   assert (H1 : Inv4 (with_heap s (hset (heap s) id ax'))) by (apply inv4_hset; [exact Hi | right; reflexivity]).
   destruct name as [n|]; [|exact H1].
+  destruct (mem_str n _) eqn:Em; [exact Hi|].
   apply rename_id_inv; [exact H1|].
-  destruct (Hn id n eq_refl eq_refl) as [Hf|He].
+  assert (Hn : ~ In n (ds_dims s) \/ n = aname (hget (heap s) id)).
+  { destruct (in_dec string_dec n (ds_dims s)) as [Hin|Hnin]; [|left; exact Hnin]. right.
+    unfold ds_dims in Hin. apply in_map_iff in Hin. destruct Hin as [j [Ej Hj]].
+    destruct (Nat.eq_dec j id) as [->|Hne]; [symmetry; exact Ej|]. exfalso.
+    assert (Hc : mem_str n (map (fun j0 => aname (hget (heap s) j0)) (filter (fun j0 => negb (j0 =? id)) (dsax s))) = true).
+    { unfold mem_str. apply existsb_exists. exists n. split; [|apply String.eqb_refl].
+      apply in_map_iff. exists j. split; [exact Ej|]. apply filter_In. split; [exact Hj|].
+      apply negb_true_iff. apply Nat.eqb_neq. exact Hne. }
+    rewrite Hc in Em. discriminate. }
+  destruct Hn as [Hf|He].
   - left. unfold ds_dims in *. cbn [heap dsax with_heap]. intros Hin. apply Hf.
     apply in_map_iff in Hin. destruct Hin as [j [Ej Hj]]. apply in_map_iff. exists j. split; [|exact Hj].
     destruct (Nat.eq_dec j id) as [->|Hne]; [rewrite hget_hset_eq in Ej; exact Ej | rewrite hget_hset_neq in Ej by exact Hne; exact Ej].
@@ -747,13 +756,12 @@ Proof. unfold ds_init. destruct (align _ _ _ _ _); [apply init_fold_inv; apply i
 (* what a history must respect for the bookkeeping invariant: new names are fresh *)
 Definition op_ok (s : dset) (o : dsop) : Prop :=
   match o with
-  | DSet _ _ | DDel _ | DSetLabel _ _ _ _ | DSetDims _ | DRenameAxes _ | DRenameKey _ _ => True
+  | DSet _ _ | DDel _ | DSetLabel _ _ _ _ | DSetDims _ | DRenameAxes _ | DRenameKey _ _ | DSetAxis _ _ _ _ => True
   | DRenameAxis r n => forall id, ds_axis_ref s r = Ok id -> ~ In n (ds_dims s) \/ n = aname (hget (heap s) id)
   | DReplaceAxis r nx => (forall id, ds_axis_ref s r = Ok id -> aname nx = aname (hget (heap s) id) \/ ~ In (aname nx) (ds_dims s))
                          /\ (forall id, ds_axis_ref s r = Ok id -> In id (dsax s))
   | DVarRenameAxis k r n => forall v i, find_var s k = Some v -> axis_info (var_as_darr s v) r = Ok i ->
                                        ~ In n (ds_dims s) \/ n = aname (hget (heap s) (nth i (vax v) 0))
-  | DSetAxis r _ _ name => forall id n, ds_axis_ref s r = Ok id -> name = Some n -> ~ In n (ds_dims s) \/ n = aname (hget (heap s) id)
   | DRenameKeys m => renkeys_ok s m
   | DInit _ => True
   | DAppendAxis _ => False      (* an axis appended directly is used by no variable: outside the bookkeeping invariant (sharing, above, holds) *)
@@ -771,7 +779,7 @@ Proof.
   - apply set_dims_inv; exact Hi.
   - apply rename_axes_inv; exact Hi.
   - apply set_label_inv; exact Hi.
-  - apply set_axis_inv; assumption.
+  - apply set_axis_inv; exact Hi.
   - apply replace_axis_inv; [exact Hi | apply Hok | apply Hok].
   - apply rename_key_inv_total; exact Hi.
   - apply rename_keys_inv; assumption.
